@@ -106,7 +106,7 @@ def main():
           'engine': 'hypothesis-runner',
           'level_claimed': {'category': 'exploration',
                             'text': c['text'] + ' Generator and clause additions made after the sensitivity rounds are '
-                                    'listed in the "rule" field of the evidence file and in DESIGN.md sections 13-18.',
+                                    'listed in the "rule" field of the evidence file and in DESIGN.md sections 13-19.',
                             'design_ref': f'DESIGN.md section 6, {pid}'},
           'level_note': c['note'],
           'technique': c['technique'],
